@@ -185,7 +185,7 @@ structure BrkSt (E : TimedEnv P) (tt : List T) (n i : Nat) (a : T) (A G off0 : R
   hcase : (L.v1 = false ∧ L.v2 = false ∧ A ≤ E.abs L.v7 ∧ E.abs L.v7 ≤ A + ttError ∧
             E.clk w ≤ up + (E.off w - off0))
         ∨ (L.v1 = false ∧ L.v2 = true)
-        ∨ (L.v1 = true ∧ L.v2 = false ∧ A + ttError < E.abs L.v7)
+        ∨ (L.v1 = true ∧ L.v2 = false ∧ A + ttError < E.abs L.v7 ∧ E.clk w ≤ up + (E.off w - off0))
 
 theorem BrkSt.mono {E : TimedEnv P} {tt : List T} {n i : Nat} {a : T} {A G off0 up m up' m' : Rat}
     {L : MtLocals T DT} {w : σ} (h : BrkSt E tt n i a A G off0 up m L w) (hu : up ≤ up') (hm : m ≤ m') :
@@ -195,7 +195,7 @@ theorem BrkSt.mono {E : TimedEnv P} {tt : List T} {n i : Nat} {a : T} {A G off0 
   · rcases h.hcase with ⟨a1, a2, a3, a4, a5⟩ | h' | h'
     · exact Or.inl ⟨a1, a2, a3, a4, by linarith⟩
     · exact Or.inr (Or.inl h')
-    · exact Or.inr (Or.inr h')
+    · exact Or.inr (Or.inr ⟨h'.1, h'.2.1, h'.2.2.1, by linarith [h'.2.2.2]⟩)
 
 theorem ttOk_pos : (0 : Rat) < ttOk := by unfold ttOk; norm_num
 
@@ -305,7 +305,7 @@ theorem check_wp (E : TimedEnv P) (M : Rat) (Φ : MtLocals T DT → σ → Prop)
   split_ifs with c1 c2 c3 c4
   · -- a clock problem is flagged
     apply hbrk
-    refine ⟨h4, h5, h6, h9, hov, hglo, hnow, hoff, by linarith, Or.inr (Or.inr ⟨c2, h2, ?_⟩)⟩
+    refine ⟨h4, h5, h6, h9, hov, hglo, hnow, hoff, by linarith, Or.inr (Or.inr ⟨c2, h2, ?_, hup⟩)⟩
     show A + ttError < E.abs L.v7
     have c2' : (k = 2 ∧ L.v11 > 0) ∨ ratAbs L.v11 > ttError := by
       simpa only [Bool.or_eq_true, Bool.and_eq_true, beq_iff_eq, decide_eq_true_eq] using c2
@@ -445,7 +445,7 @@ def PassOutcome (E : TimedEnv P) (tt : List T) (n i : Nat) (a : T) (A G off0 UP 
        E.clk wr ≤ UP + (E.off wr - off0) ∧
        w' = if P.hasAlarm wr a then recalcAll P (P.clientsAt wr a) L'.v7 wr else wr)
     ∨ (L'.v2 = true ∧ L'.v6 = some i ∧ w' = wr)
-    ∨ (L'.v2 = false ∧ L'.v6 = none ∧ A + ttError < E.abs L'.v7 ∧
+    ∨ (L'.v2 = false ∧ L'.v6 = none ∧ A + ttError < E.abs L'.v7 ∧ E.clk wr ≤ UP + (E.off wr - off0) ∧
        w' = recalcAll P (P.allClients wr) L'.v7 wr))
 
 /-- what follows the sleep loop (`refTail`) -/
@@ -454,13 +454,13 @@ theorem tail_wp (E : TimedEnv P) (M : Rat) (tt : List T) (n i : Nat) (a : T) (A 
     wp E M (PassOutcome E tt n i a A G off0 UP m) (refTail P L w) := by
   obtain ⟨h4, h5, h6, h9, hov, hglo, hnow, hoff, hoffm, hcase⟩ := hb
   unfold refTail
-  rcases hcase with ⟨c1, c2, c3, c4, c5⟩ | ⟨c1, c2⟩ | ⟨c1, c2, c3⟩
+  rcases hcase with ⟨c1, c2, c3, c4, c5⟩ | ⟨c1, c2⟩ | ⟨c1, c2, c3, c4⟩
   · simp only [c1, c2, h6, Bool.false_eq_true, ↓reduceIte]
     exact ⟨h4, h5, h9, hov, rfl, hglo, w, hnow, hoff, hoffm, Or.inl ⟨rfl, by rw [h5], c3, c4, c5, by rw [h9]⟩⟩
   · simp only [c1, c2, Bool.false_eq_true, ↓reduceIte]
     exact ⟨h4, h5, h9, hov, c1, hglo, w, hnow, hoff, hoffm, Or.inr (Or.inl ⟨c2, h6, rfl⟩)⟩
   · simp only [c1, ↓reduceIte]
-    exact ⟨h4, h5, h9, hov, rfl, hglo, w, hnow, hoff, hoffm, Or.inr (Or.inr ⟨c2, rfl, c3, rfl⟩)⟩
+    exact ⟨h4, h5, h9, hov, rfl, hglo, w, hnow, hoff, hoffm, Or.inr (Or.inr ⟨c2, rfl, c3, c4, rfl⟩)⟩
 
 /-- the loop at the beginning of a pass whose index is known: it is heading for the instant `A` (time of day
     `a = timetable[i]`), the latest reading is at most `G` before `A`, the clock at most `lat` after it -/
@@ -505,6 +505,78 @@ theorem pass_known (E : TimedEnv P) (M : Rat) (tt : List T) (n i : Nat) (a : T) 
       fun h => by omega, fun h => by omega, r2,
       by show E.clk (P.dtnow w).2 ≤ E.abs (P.dtnow w).1 + E.L + (E.off (P.dtnow w).2 - E.off w); linarith,
       by linarith, r4.1, by linarith [r4.2]⟩
+
+/-! ## the timetable: consecutive alarms -/
+
+/-- seconds from entry `i` of the timetable to the NEXT entry, cyclically (the last one is followed by the first
+    one of the next day) -/
+def nextGap (P : MtPrims σ T DT B) (tt : List T) (i : Nat) : Rat :=
+  match tt[i]?, tt[(i + 1) % tt.length]? with
+  | some x, some y => if i + 1 < tt.length then todS P y - todS P x else todS P y + secPerDay - todS P x
+  | _, _ => 0
+
+/-- consecutive entries of the timetable are at least `g` and at most `G` apart -/
+structure TTok (P : MtPrims σ T DT B) (tt : List T) (g G : Rat) : Prop where
+  pos : 0 < tt.length
+  gap_lo : ∀ i, i < tt.length → g ≤ nextGap P tt i
+  gap_hi : ∀ i, i < tt.length → nextGap P tt i ≤ G
+
+theorem nextGap_step (tt : List T) (i : Nat) (x y : T) (hx : tt[i]? = some x) (hy : tt[i + 1]? = some y)
+    (h : i + 1 < tt.length) : nextGap P tt i = todS P y - todS P x := by
+  unfold nextGap
+  rw [Nat.mod_eq_of_lt h, hx, hy]
+  simp only [h, ↓reduceIte]
+
+theorem nextGap_wrap (tt : List T) (i : Nat) (x y : T) (hx : tt[i]? = some x) (hy : tt[0]? = some y)
+    (h : i + 1 = tt.length) : nextGap P tt i = todS P y + secPerDay - todS P x := by
+  unfold nextGap
+  rw [h, Nat.mod_self, hx, hy]
+  simp only [Nat.lt_irrefl, ↓reduceIte]
+
+/-- **no alarm is skipped**: after a SERVED pass the loop is positioned at the NEXT entry of the timetable and is
+    heading for the instant `A + nextGap` – the first instant after `A` whose time of day is in the timetable -/
+theorem served_next (E : TimedEnv P) (tt : List T) (n i : Nat) (a : T) (A G g off0 UP m : Rat)
+    (L' : MtLocals T DT) (w' : σ) (hlen : tt.length = n) (hi : i < n) (hget : tt[i]? = some a)
+    (ok : TTok P tt g G) (kA : Int) (hA : A = (kA : Rat) * secPerDay + todS P a)
+    (h : PassOutcome E tt n i a A G off0 UP m L' w') (hs : L'.v2 = false) (hs6 : L'.v6 ≠ none) :
+    ∃ a' kA', tt[(i + 1) % n]? = some a' ∧
+      A + nextGap P tt i = ((kA' : Int) : Rat) * secPerDay + todS P a' ∧
+      A ≤ E.abs L'.v7 ∧ E.abs L'.v7 ≤ A + ttError ∧ E.abs L'.v7 ≤ UP + m * E.J ∧
+      KnownSt E tt n ((i + 1) % n) a' (A + nextGap P tt i) G
+        (UP - A + E.C + (m + 1) * E.J - nextGap P tt i) L' w' := by
+  obtain ⟨h4, h5, h9, hov, h1, hglo, wr, hnow, hoff, hoffm, hc⟩ := h
+  have hJ := E.hJ
+  have hmj : (m + 1) * E.J = m * E.J + E.J := by ring
+  rcases hc with ⟨c2, c6, c3, c4, c5, cw⟩ | ⟨c2, _⟩ | ⟨_, c6, _⟩
+  · have hlt : (i + 1) % n < tt.length := by rw [hlen]; exact Nat.mod_lt _ (by omega)
+    obtain ⟨a', hy⟩ : ∃ a', tt[(i + 1) % n]? = some a' := ⟨tt[(i + 1) % n], List.getElem?_eq_getElem hlt⟩
+    refine ⟨a', ?_⟩
+    have hgap := ok.gap_hi i (by omega)
+    have hkA : ∃ kA' : Int, A + nextGap P tt i = (kA' : Rat) * secPerDay + todS P a' := by
+      by_cases hw : i + 1 < tt.length
+      · have e : (i + 1) % n = i + 1 := Nat.mod_eq_of_lt (by omega)
+        refine ⟨kA, ?_⟩
+        rw [nextGap_step tt i a a' hget (by rw [e] at hy; exact hy) hw, hA]; ring
+      · have e : (i + 1) % n = 0 := by
+          have : i + 1 = n := by omega
+          rw [this]; exact Nat.mod_self n
+        refine ⟨kA + 1, ?_⟩
+        rw [nextGap_wrap tt i a a' hget (by rw [e] at hy; exact hy) (by omega), hA]
+        push_cast; ring
+    obtain ⟨kA', hk'⟩ := hkA
+    have hclk : E.abs L'.v7 ≤ E.clk w' ∧ E.clk w' ≤ UP + E.C + (m + 1) * E.J := by
+      rw [cw]
+      have hC := E.hC
+      split
+      · have r1 := E.recalc_el (P.clientsAt wr a) L'.v7 wr
+        have r2 := E.recalc_cost (P.clientsAt wr a) L'.v7 wr
+        have r3 := E.recalc_off (P.clientsAt wr a) L'.v7 wr
+        constructor <;> linarith [r3.1, r3.2]
+      · constructor <;> linarith
+    exact ⟨kA', hy, hk', c3, c4, by linarith,
+      ⟨h1, c2, h4, h5, c6, hy, hov, by linarith, hclk.1, by linarith [hclk.2]⟩⟩
+  · rw [c2] at hs; exact absurd hs (by decide)
+  · exact absurd c6 hs6
 
 end timing
 end Edzed.Cron
